@@ -13,6 +13,9 @@ CHECKS = {
     "C03": ("exploration", "runtime monitoring: differential oracle (independent sweep expansion model) over leaf flight-recorder, output collection and published context",
             "Thousands of generated sweep-centred pipelines (source/operation/probe x 1..3 variables x range/sequence/from_context x modes x broadcast x expressions x parameter placements) run through the public API; the leaf flight-recorder gives the kwargs the wrapped element really received at every step, compared step by step with an independent expansion model, together with the output collection / probe list and every <var>_values key. Held = no disagreement on the executions observed.",
             "Trusts vlib/refmodel.py (own linspace/logspace, sorted-name Cartesian order, broadcast cycling). Two-number plain-list variable specs are not generated (doc/code disagree; property silent).", "DESIGN.md §4 C03"),
+    "C02": ("exploration", "runtime monitoring: inspection verdict vs. observed run outcome; same-run sys.monitoring node probe (context before/after every node) vs. reported per-node facts",
+            "Configurations aimed at the key-flow/type-flow analysis (use-before-create, create-and-require in one node, delete-then-require, type change across context-only and pass-through nodes, sweep-published keys, shadowed defaults) plus generated pipelines are inspected+validated and then really run with exactly the reported required keys and with random supersets; a same-run sys.monitoring probe snapshots the context at every node entry/exit. Accepted-but-fails-on-flow, unreported created/suppressed keys, wrong parameter origins and differing unknown-parameter names are violations. Held = none on the executions observed.",
+            "Cause of a run-time failure is classified by the reference model (tied to the real semantics by C01), never by message parsing. Deleting an absent key is a documented don't-care. Components that lie about their output type are excluded.", "DESIGN.md §4 C02"),
 }
 
 NOT_BUILT_REASON = "check not implemented yet in this round (work in progress; see DESIGN.md §4 for the planned monitor)"
